@@ -154,9 +154,10 @@ def evaluate(ctx, cases, stream=None):
         case = cases[ci]
         obs = impls[ci]
         if 'error' in obs:
+            # the file was not read as generated (that is property C02/C03's business, not this one's):
+            # nothing of C09 can be observed on it; it is counted, not reported
             if what == 'sum':
-                ctx.fail('C09|parse', f'generated valid file not parsed as expected: {obs["error"]}', dict(case=case, stream='occ', actual=obs),
-                         kind='correspondence')
+                ctx.dist['unobservable: atoms not parsed as generated'] += 1
             continue
         if isinstance(what, int):
             a = case['atoms'][what]
